@@ -22,7 +22,7 @@ LEVEL = "exploration"
 BUILDS = [("asan", ["asynccheck"]), ("tsan", ["asynccheck", "lpcvm"])]      # built by the parent process before the shards start
 RULE = ("cases = op scripts of five classes: EL (1-40 ops over post / wakeup / wait(0) / k threads posting n each behind a barrier / post while blocked), "
         "Q1 (capacity 1-8, message size 1-32, every policy, 1-60 enqueue / dequeue / clear / stats / full-empty ops), QB (1-5 writers blocked on a full BLOCK_WRITER queue of capacity 1-6, then drain / clear + drain / clear + a further writer + drain), QT (1-4 producers x 20-400 messages, "
-        "capacity 1-16, each policy, seeded yields, one consumer), WK (4 worker procedure kinds x delay before stop 0-20 ms x stop or not x join timeout "
+        "capacity 1-16, each policy, seeded yields, one consumer), WK (6 worker procedure kinds x delay before stop 0-20 ms x stop or not x join timeout "
         "{0, 5, 50, 300, infinite}), TM (interval 1-20 ms x run 0-60 ms x 0-3 restarts); both tiers run the threaded classes again under ThreadSanitizer, and DS: the whole driver (lpcvm, TSan build) with its real heart-beat timer thread at a 20 ms "
         "interval - and in console mode the console worker thread - while heart beats run and commands from a connection and the console are served. "
         "non-trivial = >= 2 posts between two waits, or the queue reached full, or join issued within 1 ms of create; distinct = script text")
@@ -108,7 +108,7 @@ def qb_case(draw):
 
 @st.composite
 def wk_case(draw):
-    return dict(kind="WK", line="WK %d %d %d %d %d" % (draw(st.integers(0, 3)), draw(st.sampled_from([0, 0, 0, 50, 500, 3000, 20000])), draw(st.integers(0, 1)),
+    return dict(kind="WK", line="WK %d %d %d %d %d" % (draw(st.sampled_from([0, 1, 2, 3, 4, 4, 5, 5])), draw(st.sampled_from([0, 0, 0, 50, 500, 3000, 20000])), draw(st.integers(0, 1)),
                                                        draw(st.sampled_from([0, 5, 50, 300, -1])), draw(st.integers(0, 10 ** 6))))
 
 
